@@ -318,7 +318,7 @@ pub fn gen_phys_graph(t: &mut Tape, max_e: usize, max_l: usize, min_omega: f64, 
     let mut k = *t.pick(&ks);
     if !massive.iter().all(|&m| m) && t.chance(0.5) {
         // massless parts need external momentum flowing through them: prefer many external vertices
-        k = *ks.last().unwrap();
+        k = *ks.iter().max().unwrap();
     }
     if k == 0 && !massive.iter().any(|&m| m) {
         if nv >= 2 {
